@@ -607,6 +607,7 @@ def tasks(tier):
     for m in METHODS:
         for pol in POLICIES:
             ts.append(('contracts.c03', 'method_task', ('C03', m, pol)))
+    ts += bulk_tasks('C03')
     return ts
 
 
@@ -620,3 +621,7 @@ def meta(results, tier):
                             'A-SQL-det for DELETE ... IN (identical SELECT)', 'finite-sum arithmetic for SUM(size)',
                             'quiescent agreement of rows and files at entry (C08)'],
             'explanation': 'per-method refinement of the reference dictionary on the symbolic table model, 4 eviction policies'}
+
+
+def bulk_tasks(pid, kinds=('clear', 'evict', 'expire')):
+    return [('contracts.bulk', 'bulk_task', (pid, k)) for k in kinds]
